@@ -238,7 +238,7 @@ def eval_guard(e, env):
         l, r = eval_guard(e_['l'], env), eval_guard(e_['r'], env)
         M = 2 ** 64 - 1
         return {'&': l & r, '|': l | r, '+': (l + r) & M, '-': (l - r) & M, '*': (l * r) & M, '<=': int(l <= r), '<': int(l < r), '>=': int(l >= r),
-                '>': int(l > r), '==': int(l == r), '!=': int(l != r), '>>': l >> r, '<<': (l << r) & M, '%': l % r if r else 0,
+                '>': int(l > r), '==': int(l == r), '!=': int(l != r), '>>': l >> r, '<<': (l << r) & M, '%': l % r if r else 0, '/': l // r if r else 0,
                 '&&': int(bool(l) and bool(r)), '||': int(bool(l) or bool(r))}[e_['op']]
     raise KeyError('expression %s' % show(e_))
 
